@@ -15,11 +15,12 @@ CASE_TIMEOUT = 120
 BATCH_SIZE = {'quick': 4, 'thorough': 16}
 REQUIRED_COUNTERS = ['drop_pairs', 'flatten_pairs', 'absent_level_pairs',
                      'level_records_compared_bitwise']
-RULE = ('case = one generated world mapped three ways: (A) drop_level / '
+RULE = ('case = one generated world mapped four ways: (A) drop_level / '
         'flatten via the configuration, (B) no reduction on a reference '
         'whose embedded taxonomy never had the level / is the one-level '
         'taxonomy of the leaves with the union of all marker lists, (C) '
-        'dropping a level that does not exist vs. no drop; same seed, '
+        'dropping a level that does not exist vs. no drop, (D) flatten and '
+        'drop_level in one run vs. the one-level taxonomy; same seed, '
         'factors < 1 included.  Non-trivial = a voted level with more than '
         'one candidate was compared; distinct = distinct feature tuples')
 ASSUMPTIONS = [
@@ -191,6 +192,33 @@ def run_case(spec, work):
                         break
             if len(model.leaves) > 1:
                 nontrivial = True
+            # (D) flatten and drop a level in one run: still the one-level
+            #     taxonomy with the union of all lists
+            for li, lv in enumerate(model.hierarchy[:-1]):
+                wd = mapworld.derive_world(
+                    w, f'flatdrop{li}',
+                    cfg_updates={'flatten': True, 'drop_level': lv})
+                jd, err = run(wd)
+                if jd is None:
+                    viol.append({'sig': 'C17:flatten-and-drop-run-raises',
+                                 'msg': err})
+                    continue
+                counters['flatten_and_drop_pairs'] = counters.get(
+                    'flatten_and_drop_pairs', 0) + 1
+                _levels_equal(jd['results'], jb['results'],
+                              [model.leaf_level], viol, 'flatten-and-drop',
+                              counters)
+                for rec in jd['results']:
+                    leaf = rec[model.leaf_level]['assignment']
+                    bad = [l2 for l2 in model.hierarchy[:-1]
+                           if rec[l2]['assignment'] !=
+                           model.ancestor(model.leaf_level, leaf, l2)]
+                    if bad:
+                        viol.append({
+                            'sig': 'C17:flatten-and-drop-level-not-ancestor',
+                            'msg': f'cell {rec["cell_id"]}: levels {bad} '
+                                   f'are not the ancestors of leaf {leaf!r}'})
+                        break
     feats = mapcases.features_of(spec)
     sample = {'hierarchy': model.hierarchy,
               'pairs': {k: counters.get(k) for k in
